@@ -1,6 +1,7 @@
 import H2.Client.Recv
 import H2.Proofs.HpackEnc
 import H2.Proofs.ClientRunCount
+import H2.Proofs.ClientHdrFrames
 /-!
 # C18 (client half) — SETTINGS are acknowledged one for one and the server's limits persist
 
@@ -10,8 +11,9 @@ F09c: every SETTINGS_HEADER_TABLE_SIZE value reaches the write loop's encoder as
 request, then last" (`noted_*`, `applied_*`, `dip_announced`), so a size that dips and comes back is announced.
 F35 is repaired as well: the SETTINGS frame of the handshake carries ENABLE_PUSH=0 (`advertises_push_off`), and the
 zeros of the client's never-reset `Settings` still stay off the wire (`advertises_nothing_else`).
-Not met and recorded as known: a request's header block is one HEADERS frame whatever the server's MAX_FRAME_SIZE
-(F33, shared with the server half).
+F33 (shared with the server half) is repaired too: a request's header block longer than the server's MAX_FRAME_SIZE goes
+out as HEADERS + CONTINUATION frames of at most that size (`header_frames_within_server_max_frame_size`,
+`request_block_frames_add_up`).
 -/
 namespace H2.Props.C18c
 
@@ -96,6 +98,74 @@ theorem concurrent_streams_obeyed (c : Conn) (r : ReqSpec) :
 theorem frame_size_recorded (c : Conn) (v : Nat) :
     (applyPairs c [(Gen.c_MaxFrameSize, v)]).maxFrameSize = v := by
   simp [applyPairs, Gen.c_MaxFrameSize, Gen.c_HeaderTableSize, Gen.c_MaxConcurrentStreams]
+
+/-! ## MAX_FRAME_SIZE obeyed by header blocks (finding F33, repaired)
+
+`writeRequest` queues ONE HEADERS frame per request; `writeHeaderBlock` cuts it where it is written, under `bwLck`, at
+`frameStep` — the value `writeData` uses. `wireFrames` is what reaches the wire (and what the driver prints). -/
+
+/-- the step header blocks and DATA are cut at is the server's SETTINGS_MAX_FRAME_SIZE: the value recorded by
+`applyPairs` (`frame_size_recorded`) whenever it is one a SETTINGS frame can carry (2^14 … 2^24-1; anything else is
+refused by the frame layer), the size every peer accepts otherwise; it is never 0 -/
+theorem frame_step_is_servers (c : Conn) :
+    0 < frameStep c ∧
+    (0 < c.maxFrameSize → c.maxFrameSize ≤ Gen.c_maxFrameSize → frameStep c = c.maxFrameSize) ∧
+    (c.maxFrameSize = 0 ∨ c.maxFrameSize > Gen.c_maxFrameSize → frameStep c = 2 ^ 14) :=
+  ⟨frameStep_pos c, frameStep_is_servers c, fun h => by rw [frameStep_default c h]; rfl⟩
+
+/-- **Every HEADERS-without-END_HEADERS and every CONTINUATION frame written is at most the server's MAX_FRAME_SIZE**,
+whatever frames the step queued (`fs` without wire-only frames: what `writeRequest`, `sendPending` and the read loop
+queue, see `request_queues_no_fragments`) and whatever the encoder's state; a HEADERS frame that keeps END_HEADERS
+carries a block that fits (`whole_headers_frame_fits`). -/
+theorem header_frames_within_server_max_frame_size (c : Conn) (fs : List OutFrame) (h : NoFrag fs) :
+    ∀ n ∈ (wireFrames c fs).filterMap OutFrame.fragLen, n ≤ frameStep c := by
+  intro n hn
+  rcases wireFrames_frags c fs n hn with h1 | h1
+  · exact h1
+  · rw [h.filterMap] at h1; cases h1
+
+theorem request_queues_no_fragments (c : Conn) (r : ReqSpec) : NoFrag (writeRequest c r).2 :=
+  writeRequest_noFrag c r
+
+/-- one queued HEADERS frame on the wire: the frames `headerFrames` makes of the fragment lengths of its block -/
+theorem one_block_on_the_wire (c : Conn) (sid : Nat) (es : Bool) (fields : List (Bytes × Bytes)) :
+    wireFrames c [.headers sid es fields] =
+      headerFrames sid es fields (blockLens (frameStep c) (encodeHeaders c fields).2) := by
+  simp [wireFrames]
+
+/-- a block that fits stays the single HEADERS frame it was (END_HEADERS set) -/
+theorem whole_headers_frame_fits (c : Conn) (sid : Nat) (es : Bool) (fields : List (Bytes × Bytes))
+    (h : (encodeHeaders c fields).2 ≤ frameStep c) :
+    wireFrames c [.headers sid es fields] = [.headers sid es fields] := by
+  rw [one_block_on_the_wire, headerFrames_small _ _ _ _ _ h]
+
+/-- **The fragments of a request header block add up to the block** (client twin of
+`C18.header_block_frames_are_whole`; the client model carries block lengths, not octets): a block of `n` octets longer than
+the step goes out as a HEADERS frame without END_HEADERS carrying exactly `step` octets, END_STREAM staying on it, then at
+least one CONTINUATION frame; the payload lengths are `blockLens step n`, each at most `step`, none of the CONTINUATION
+frames empty, and their sum is `n`; END_HEADERS and the field list are on the last CONTINUATION frame (`contFrames`). -/
+theorem request_block_frames_add_up (sid : Nat) (es : Bool) (fields : List (Bytes × Bytes)) (step : Nat) (hs : 0 < step)
+    (n : Nat) (h : step < n) :
+    (∃ l rest, blockLens step n = step :: l :: rest ∧ (∀ x ∈ l :: rest, 0 < x) ∧
+      headerFrames sid es fields (blockLens step n) = .hfrag sid es step :: contFrames sid fields (l :: rest) ∧
+      (contFrames sid fields (l :: rest)).filterMap OutFrame.fragLen = l :: rest) ∧
+    (∀ x ∈ blockLens step n, x ≤ step) ∧ (blockLens step n).sum = n := by
+  obtain ⟨l, rest, e, hp⟩ := blockLens_big step hs n h
+  exact ⟨⟨l, rest, e, hp, by simp [e, headerFrames], fragLen_contFrames _ _ _⟩, blockLens_le step n, blockLens_sum step hs n⟩
+
+/-- END_HEADERS is on the last CONTINUATION frame and on no other, the decoded fields with it -/
+theorem cont_frames_shape (sid : Nat) (fields : List (Bytes × Bytes)) (l : Nat) (rest : List Nat) :
+    contFrames sid fields (l :: rest) =
+      .cont sid rest.isEmpty l (if rest.isEmpty then fields else []) :: contFrames sid fields rest := rfl
+
+/-- non-vacuity: 40 000 octets towards a server that left MAX_FRAME_SIZE at 16384: 3 frames; towards one that announced
+32768: 2 frames; 16384 octets: the one HEADERS frame; 16385: two frames -/
+example : blockLens 16384 40000 = [16384, 16384, 7232] := by decide
+example : blockLens 32768 40000 = [32768, 7232] := by decide
+example : blockLens 16384 16384 = [16384] ∧ blockLens 16384 16385 = [16384, 1] := by decide
+example : headerFrames 1 true [([1], [2])] [16384, 16384, 7232] =
+    [.hfrag 1 true 16384, .cont 1 false 16384 [], .cont 1 true 7232 [([1], [2])]] := rfl
+example : frameStep { maxFrameSize := 32768 } = 32768 ∧ frameStep {} = 16384 ∧ frameStep { maxFrameSize := 0 } = 16384 := by decide
 
 /-! ## SETTINGS_HEADER_TABLE_SIZE: every change reaches the encoder (repair of F09c) -/
 
